@@ -21,8 +21,8 @@ func profileFor(prop string) Profile {
 		p.PTargets, p.PCtxTargets, p.PMulti, p.MaxRules, p.PPrereq, p.MaxSegs = 0.85, 0.65, 0.5, 1, 0.1, 1
 		p.PLegacy = 0.35 // legacy users: the only way to an empty key
 	case "C04":
-		p.MaxRules, p.MaxClauses, p.PSegmentOp, p.PPrereq, p.PTargets, p.PCtxTargets, p.PKindAttr, p.PRollout = 2, 3, 0.03, 0.0, 0.05, 0.05, 0.15, 0.1
-		p.MaxFlags, p.MaxSegs, p.POff = 0, 1, 0.02
+		p.MaxRules, p.MaxClauses, p.PSegmentOp, p.PPrereq, p.PTargets, p.PCtxTargets, p.PKindAttr, p.PRollout = 2, 3, 0.03, 0.12, 0.05, 0.05, 0.15, 0.1
+		p.MaxFlags, p.MaxSegs, p.POff = 2, 1, 0.02 // a few prerequisites: a malformed clause reached inside one ends the whole evaluation
 		p.Ops = append(append([]string{}, allOps...), "in", "in", "in") // equality sets have a precomputed form of their own
 		p.PZeroAge = 0.2
 		p.PSingleMal = 0.08 // a malformed clause must end the evaluation wherever it is reached (also inside a prerequisite)
